@@ -21,9 +21,9 @@
 //! is involved the model is given the toy form of the text the crate was given as a real zlib stream
 //! (`00` for a corrupt stream) and results / texts / state kinds are compared, never payload bytes.
 //!
-//! TODO (needs a `#[global_allocator]` in main.rs, which this module must not add): peak allocation
-//! during `decompress_text_with_limit` ≤ limit + slack.  Measured here instead: the size of what the
-//! call stores (≤ limit) and that the call fails without changing the chunk when the limit is too small.
+//! Allocation: the peak of live heap bytes during `decompress_text_with_limit(limit)` is measured with the counting global
+//! allocator and held against 6*limit + 256 KiB (bombs of up to 64 MiB behind limits of 0 .. 1 MiB), next to the size of what
+//! the call stores (≤ limit) and that the call fails without changing the chunk when the limit is too small.
 use crate::json::J;
 use crate::model;
 use crate::report::Ctx;
@@ -1423,10 +1423,20 @@ fn judge_inflate(kind: char, payload: &[u8], limit: usize, strict: bool, ans: &[
     // 1. bounded decompression
     let r1 = {
         let mut cc = c.clone();
-        match guarded(move || {
+        // peak of live heap bytes during the bounded decompression (counting global allocator): the inflated output grows in
+        // 32 KiB steps up to the limit (Vec growth may double the capacity and a reallocation holds old and new block at once),
+        // the decoded String is at most twice the output (Latin-1 -> UTF-8): a fixed linear function of the limit, whatever
+        // the payload would inflate to
+        let base = crate::alloc::begin();
+        let res = guarded(move || {
             let r = cc.decompress(limit);
             (cc, r)
-        }) {
+        });
+        let peak = crate::alloc::peak_above(base);
+        if peak > 6 * limit + (256 << 10) {
+            return oracle(&format!("limit/{}/peak-allocation", kind), format!("decompress_text_with_limit({}) on a {}-byte payload held {} bytes at its peak (bound 6*limit + 256 KiB)", limit, payload.len(), peak));
+        }
+        match res {
             Ok((cc, r)) => {
                 c = cc;
                 r
